@@ -42,8 +42,8 @@ type allocIn struct {
 	MemReq int64 `json:"memReq"`
 }
 
-func coreID(i int) string  { return strconv.Itoa(i) }
-func numaID(j int) string  { return strconv.Itoa(j - 1) } // NUMA node j (1-based) is "j-1"
+func coreID(i int) string       { return strconv.Itoa(i) }
+func numaID(j int) string       { return strconv.Itoa(j - 1) } // NUMA node j (1-based) is "j-1"
 func cpuFloat(p, B int) float64 { return float64(p) / float64(B) }
 
 func (n *nodeSt) rawCapacity() plugintypes.NodeResource {
